@@ -24,11 +24,11 @@ use zipora::memory::{SecureMemoryPool, SecurePoolConfig};
 mod x;
 
 const HEADER: &str = r#"From ZV.Common Require Import Base Run.
-From ZV.C02 Require Import Model RunCase.
+From ZV.C02 Require Import Model RunCase RunCaseX.
 Open Scope N_scope.
 Definition case_t : Type := N * list N * list N * list N.
 Definition ok (c : case_t) : bool :=
-  let '(op, a, b, expect) := c in eqb_ln (run_case op a b) expect.
+  let '(op, a, b, expect) := c in eqb_ln (run_case_all op a b) expect.
 "#;
 
 struct Ctx {
@@ -45,7 +45,12 @@ impl Ctx {
         // one budget per kind of case, so that the large enumerated families do not crowd out the others
         let used = self.per_op.entry(op).or_insert(0);
         // (a rANS table case costs ~0.5 s of coqc: two 256-entry lists and the three normalisation passes)
-        let limit = match op { 0 | 1 => self.coq_budget * 4 / 15, 5 => self.coq_budget * 2 / 15, 4 => self.coq_budget / 12, 2 => self.coq_budget / 25, _ => self.coq_budget / 90 };
+        let limit = match op {
+            0 | 1 => self.coq_budget * 3 / 15, 5 => self.coq_budget * 2 / 15, 4 => self.coq_budget / 12, 2 => self.coq_budget / 25,
+            // extension ops: compressor frames (a rANS case normalises a table: ~0.5 s), front-end automata, PA-Zip compress, SIMD LZ77 tokens
+            10 | 11 => self.coq_budget / 60, 12 => self.coq_budget / 100, 13..=17 => self.coq_budget / 40,
+            20..=29 => self.coq_budget / 25, 30..=39 => self.coq_budget / 20, 40..=49 => self.coq_budget / 25,
+            _ => self.coq_budget / 90 };
         if !force && *used >= limit { return; }
         *used += 1;
         let term = format!("({}, {}, {}, {})", op, coq_n_list(a.iter().cloned()), coq_n_list(b.iter().cloned()), coq_n_list(expect.iter().cloned()));
@@ -338,7 +343,9 @@ fn needs_training(a: Algorithm) -> bool {
 fn factory_case(cx: &mut Ctx, ai: usize, x: &[u8], train: &[u8]) {
     let (alg, name) = ALGS[ai % ALGS.len()];
     let cell = format!("factory/{}", name);
-    cx.sum.cell_status(&cell, "S-only");
+    // the header layouts of the three trained compressors are modelled (coq/C02/ModelComp.v) and tied by x::comp_tie
+    let modelled = matches!(alg, Algorithm::Huffman | Algorithm::Rans | Algorithm::Dictionary);
+    cx.sum.cell_status(&cell, if modelled { "M+S" } else { "S-only" });
     let cj = json!({"cell": "factory", "alg": ai, "data": x, "train": train});
     cx.sum.eval(&cell, &format!("f {} {:?} {:?}", ai, x, train), x.len() >= 2);
     let tr = if needs_training(alg) { Some(train) } else { None };
@@ -357,7 +364,7 @@ fn factory_case(cx: &mut Ctx, ai: usize, x: &[u8], train: &[u8]) {
     // stored tables: a second instance trained on other data must decode Huffman / rANS output
     if matches!(alg, Algorithm::Huffman | Algorithm::Rans) && !x.is_empty() {
         let cell2 = format!("factory/{}/other_instance", name);
-        cx.sum.cell_status(&cell2, "S-only");
+        cx.sum.cell_status(&cell2, "M+S");
         if let Ok(Ok(z)) = guarded(|| c.compress(x)) {
             if let Ok(Ok(c2)) = guarded(|| CompressorFactory::create(alg, Some(TEXT))) {
                 cx.sum.eval(&cell2, &format!("f2 {} {:?} {:?}", ai, x, train), true);
@@ -827,6 +834,10 @@ fn run_one(cx: &mut Ctx, c: &Value) {
         }
         "pazip_big" => pazip_big_case(cx, c["preset"].as_u64().unwrap_or(0) as usize, c["n"].as_u64().unwrap_or(0) as usize, c["seed"].as_u64().unwrap_or(0)),
         "simd_lz77/inherent" => simd_lz77_case(cx, &bytes_of(&c["data"])),
+        "comp_tie" => {
+            let train = if c["train"].is_null() { vec![] } else { bytes_of(&c["train"]) };
+            if !train.is_empty() { x::comp_tie(cx, c["kind"].as_u64().unwrap_or(0), &bytes_of(&c["data"]), &train, true) }
+        }
         "big" => x::big_case(cx, c["front"].as_u64().unwrap_or(0), c["sel"].as_u64().unwrap_or(0) as usize, c["kind"].as_u64().unwrap_or(0), c["n"].as_u64().unwrap_or(0) as usize),
         "realtime_batch" => x::realtime_batch_case(cx, c["mode"].as_u64().unwrap_or(0) as usize, c["fallback"].as_bool().unwrap_or(true), c["item_len"].as_u64().unwrap_or(0) as usize, c["n_big"].as_u64().unwrap_or(0) as usize, c["seed"].as_u64().unwrap_or(0)),
         "pazip/legacy_decode_raw" => legacy_raw(cx, &bytes_of(&c["data"])),
@@ -842,7 +853,7 @@ pub fn run(args: &Args) {
     quiet_panics();
     let mut cx = Ctx {
         sum: Summary::new("C02", "corpus; PA-Zip match lists: every kind at min/max/min-1/max+1 of each field and at the variable-length thresholds, all ordered pairs of kinds, random lists of length 0..40, random bytes through decode_matches; every Algorithm of the factory x 10 payload families (incompressible, text, runs around 33/34, near and far periods, skewed, all symbols) x 7 training relations (same, unrelated, single byte, subset ...); hybrid selector and rANS table against the model; adaptive and real-time front ends as operation histories with algorithm / mode switches and passed / distant deadlines; PA-Zip compressor presets x dictionary builders x payload sequences; a case is non-trivial when the payload has >= 2 bytes or the list >= 2 matches; distinct = distinct canonical case text"),
-        shards: CoqShards::new(HEADER, 300),
+        shards: CoqShards::new(HEADER, 150),
         coq_budget: if args.thorough { 6000 } else { 1500 },
         per_op: std::collections::HashMap::new(),
         rng: Rng::new(args.seed),
@@ -943,6 +954,8 @@ pub fn run(args: &Args) {
         cx.rng = r;
         hybrid_tie(&mut cx, &x, &t, false);
     }
+    // 3b. the headers of the trained compressors against the model (ModelComp.v)
+    x::run_comp_ties(&mut cx, th);
     // 4. factory: every algorithm x families x training relations
     for ai in 0..ALGS.len() {
         for fam in 0..10u64 {
